@@ -1,5 +1,5 @@
 (* Props/C03.v — C03: expression evaluation follows the typed operator semantics.  Statements and `exact` only. *)
-From BS Require Import Model.Base Model.Num Model.Arith Model.ExprParser Model.Script Model.Interp Gen.Library Proofs.C03.
+From BS Require Import Model.Base Model.Num Model.Arith Model.ExprParser Model.Script Model.Interp Gen.Library Gen.OpTable Proofs.C03 Proofs.C03gen.
 
 (* any operator applied to operand types it does not support yields null ([supported] is the documented table, written as data
    in Proofs/C03.v: + number/number, string/any, any/string, datetime/number; - number/number, datetime/datetime;
@@ -7,6 +7,19 @@ From BS Require Import Model.Base Model.Num Model.Arith Model.ExprParser Model.S
 Theorem C03_unsupported_is_null : forall op w a b, supported op (tag a) (tag b) = false -> binop op w a b = OVal VNull.
 Proof. exact unsupported_is_null. Qed.
 Print Assumptions C03_unsupported_is_null.
+
+(* ... and that table is not only a transcription: it IS the operand-type ladder of runtime.py evaluate_expression.  Gen/OpTable.v
+   is REGENERATED from the source on every run (per operator the guards of its branch: _is_number / isinstance str /
+   isinstance datetime.date on the left and right value, in source order; _is_number pinned to exclude bool; the handler pinned to
+   (ArithmeticError, ValueError)); for every operator of the generated table and every pair of the nine value types, [supported]
+   holds exactly when a guard of the source admits the pair *)
+Theorem C03_supported_table_is_the_source_ladder : forall op g a b,
+  In (op, g) gen_operator_guards -> supported op a b = guards_admit g a b.
+Proof. exact supported_is_the_source_ladder. Qed.
+Print Assumptions C03_supported_table_is_the_source_ladder.
+Example C03_generated_operators :
+  map fst gen_operator_guards = [U "+"; U "-"; U "*"; U "/"; U "=="; U "!="; U "<="; U "<"; U ">="; U ">"; U "%"; U "**"].
+Proof. exact generated_operators. Qed.
 
 Theorem C03_arithmetic_yields_number_or_null : forall op w x y,
   is_relational op = false -> op_is op "+" = false ->
